@@ -66,6 +66,19 @@ def _dat(perm, hdr, nrows, tab, style_b, yy, mon, corrupt, where, eol=0):
     can = DAT_parser.can_parse_file(io.StringIO(text))
     if can != (nrows >= 1):
         return False
+    # one file object serves several calls (probe, parse, parse again; a caller may have read from it before): same answer every time
+    fobj = io.StringIO(text)
+    fobj.readline()
+    if DAT_parser.can_parse_file(fobj) != can:
+        return False
+    for _again in range(2):
+        fb = DAT_parser.parse_file(fobj, 'id')
+        if [c.ident for c in fb.channels] != [c.ident for c in fa.channels] or any(len(c.array) != nrows for c in fb.channels):
+            return False
+        for r in range(nrows):
+            for ci, c in enumerate(fb.channels):
+                if c.array[r][0] != fa.channels[ci].array[r][0]:
+                    return False
     decl = {n: (' '.join(d.split()), u) for n, d, u in DECLS}
     if [c.ident for c in fa.channels] != names:
         return False
@@ -86,7 +99,8 @@ def _dat(perm, hdr, nrows, tab, style_b, yy, mon, corrupt, where, eol=0):
 def dat_files(perm: int, hdr: int, nrows: int, tab: bool, style_b: bool, yy: int, mon: int, corrupt: int, where: int, eol: int = 0) -> bool:
     """
     pre: 0 <= perm <= 3 and 0 <= hdr <= 3 and 0 <= nrows <= 2
-    pre: 0 <= yy <= 5 and 0 <= mon <= 11 and 0 <= corrupt <= 4 and 0 <= where <= 3
+    pre: 0 <= yy <= 5 and mon in (0, 1, 5, 11) and 0 <= corrupt <= 4 and 0 <= where <= 3
+    pre: corrupt == 0 or eol <= 1
     pre: corrupt != 0 or where == 0
     pre: 0 <= eol <= 3
     pre: PART < 0 or corrupt * 4 + perm == PART
